@@ -65,3 +65,12 @@ def lemma_scale_invariance(n, i):
     """normalised weights are invariant under w -> c*w, c > 0"""
     use_scale()
     return 0
+
+
+def lemma_sum_sign(n):
+    """A(i+1)=A(i)+a(i) with a(i) >= 0 (resp. == 0) on [0,n)  =>  A(n) >= 0 (resp. == 0)"""
+    j = 0
+    while j < n:
+        inst(j)
+        j = j + 1
+    return j
